@@ -147,6 +147,12 @@ class World:
             raise Viol("names_enumeration", f"{where}:order-disagrees", f"keys={keys} items={items} iter={it}")
         if b.item(b.length) != "":
             raise Viol("names_enumeration", f"{where}:item-out-of-range", f"item(length)={b.item(b.length)!r}")
+        # indexing is list-like on both sides of the range (documented: -1 is the last name, '' outside)
+        n_ = len(items)
+        for i in range(-n_ - 2, n_ + 3):
+            want = items[i] if -n_ <= i < n_ else ""
+            if b.item(i) != want:
+                raise Viol("names_enumeration", f"{where}:item-index", f"item({i})={b.item(i)!r}, the enumeration {items} has {want!r} there")
         for n in names:
             e = self.effective(n)
             if n not in b:
